@@ -6,14 +6,22 @@ stored as {"__nd__": dtype, "shape": [...], "data": [...]} with complex data
 split into real/imag lists, so that a replay file is self-contained and
 bit-exact (floats are written with repr precision by json).
 """
+import base64
 import hashlib
 import json
+import zlib
 
 import numpy as np
+
+BIG = 100_000          # arrays above this many elements are stored as compressed bytes (exact, compact, fast)
 
 
 def encode(obj):
     if isinstance(obj, np.ndarray):
+        if obj.size > BIG:
+            a = np.ascontiguousarray(obj)
+            return {"__nd__": str(a.dtype), "shape": list(a.shape),
+                    "zb64": base64.b64encode(zlib.compress(a.tobytes(), 1)).decode("ascii")}
         if np.iscomplexobj(obj):
             return {"__nd__": str(obj.dtype), "shape": list(obj.shape),
                     "re": obj.real.ravel().tolist(), "im": obj.imag.ravel().tolist()}
@@ -46,6 +54,8 @@ def decode(obj):
     if isinstance(obj, dict):
         if "__nd__" in obj:
             dt = np.dtype(obj["__nd__"])
+            if "zb64" in obj:
+                return np.frombuffer(zlib.decompress(base64.b64decode(obj["zb64"])), dtype=dt).reshape(obj["shape"]).copy()
             if "re" in obj:
                 a = np.array(obj["re"], dtype=float) + 1j * np.array(obj["im"], dtype=float)
                 return a.astype(dt).reshape(obj["shape"])
@@ -64,8 +74,20 @@ def canonical(obj):
     return json.dumps(encode(obj), sort_keys=True, separators=(",", ":"))
 
 
+def _digest_form(obj):
+    """like encode, but a large array is represented by a hash of its bytes (digests only)"""
+    if isinstance(obj, np.ndarray) and obj.size > BIG:
+        a = np.ascontiguousarray(obj)
+        return {"__nd__": str(a.dtype), "shape": list(a.shape), "sha1": hashlib.sha1(a.tobytes()).hexdigest()}
+    if isinstance(obj, dict):
+        return {str(k): _digest_form(v) for k, v in obj.items()}
+    if isinstance(obj, (list, tuple)):
+        return [_digest_form(v) for v in obj]
+    return encode(obj)
+
+
 def digest(obj):
-    return hashlib.sha1(canonical(obj).encode()).hexdigest()[:16]
+    return hashlib.sha1(json.dumps(_digest_form(obj), sort_keys=True, separators=(",", ":")).encode()).hexdigest()[:16]
 
 
 def summarise(obj, limit=400):
